@@ -274,16 +274,18 @@ def recvWd (w : W) (idx : Nat) (pfx pathId : Nat) : W :=
     let w := w.updPeer idx (fun ps => { ps with adj := adjWithdraw ps.adj r })
     propagate w ps.cfg r true
 
+/-- one destination of the initial table transfer -/
+def transferStep (g : Global) (t : PeerCfg) (v : View) (e : Nat × List Cand) : View :=
+  match e.2.head? with
+  | some b =>
+    if b.nhInvalid then v else
+    match sFilterpath g t ⟨b, false⟩ none with
+    | some p => viewApply v p 0
+    | none => v
+  | none => v
+
 /-- getBestFromLocalCallbackLocked for a non ADD-PATH peer: the export of every best path -/
-def transfer (w : W) (t : PeerCfg) : View :=
-  w.rib.foldl (fun v e =>
-    match e.2.head? with
-    | some b =>
-      if b.nhInvalid then v else
-      match sFilterpath w.g t ⟨b, false⟩ none with
-      | some p => viewApply v p 0
-      | none => v
-    | none => v) []
+def transfer (w : W) (t : PeerCfg) : View := w.rib.foldl (transferStep w.g t) []
 
 def sessionUp (w : W) (idx : Nat) : W :=
   match w.peer? idx with
